@@ -173,9 +173,40 @@ func (t *TyGen) GenType(depth int) reflect.Type {
 		}
 		return reflect.PtrTo(el)
 	default:
+		if t.r.P(1, 6) {
+			t.feature("embedded-struct")
+			return embeddedTypes[t.r.Intn(len(embeddedTypes))]
+		}
 		return t.structType(depth)
 	}
 }
+
+// Declared struct types with one to four levels of embedding (reflect.StructOf cannot embed
+// unnamed struct types), several exported fields at the innermost levels.
+type EmbL4 struct {
+	Lat int32
+	Lon int32
+	Tag string
+}
+type EmbL3 struct {
+	EmbL4
+	M3 uint8
+	N3 string
+}
+type EmbL2 struct {
+	EmbL3
+	M2 string
+}
+type EmbL1 struct {
+	EmbL2
+	Z string
+}
+type EmbTwo struct {
+	EmbL4
+	Q float64
+}
+
+var embeddedTypes = []reflect.Type{reflect.TypeOf(EmbL1{}), reflect.TypeOf(EmbL2{}), reflect.TypeOf(EmbL3{}), reflect.TypeOf(EmbTwo{}), reflect.TypeOf(EmbL4{})}
 
 var fieldNames = []string{"A", "Bb", "Name", "Value", "X1", "FooBar", "URLPath", "Id", "Z"}
 
@@ -229,6 +260,15 @@ func (t *TyGen) GenValue(ty reflect.Type, depth int) reflect.Value {
 		return v
 	case tyDecimal:
 		d := apd.New(int64(t.r.Intn(100000))-50000, int32(t.r.Intn(20)-10))
+		if t.r.P(1, 3) {
+			// coefficient wider than 64 bits, possibly with trailing decimal zeros
+			c := new(big.Int).SetBytes(t.r.Bytes(9 + t.r.Intn(8)))
+			if t.r.P(1, 2) {
+				c.Mul(c, new(big.Int).Exp(big.NewInt(10), big.NewInt(int64(1+t.r.Intn(4))), nil))
+			}
+			d = apd.NewWithBigInt(c, int32(t.r.Intn(20)-10))
+			d.Negative = t.r.P(1, 2)
+		}
 		v.Set(reflect.ValueOf(*d))
 		return v
 	case tyDFloat:
